@@ -21,7 +21,35 @@ from concurrent.futures import ThreadPoolExecutor
 
 VERIF = os.path.dirname(os.path.dirname(os.path.abspath(__file__)))
 REPO = os.environ.get('VERIF_REPO', '/repo')
-WORK = os.environ.get('VERIF_WORK', '/var/tmp/verif-work')
+_SLOT_LOCK = None
+
+
+def _scratch_slot():
+    """Runs against a scratch tree (VERIF_REPO, used by the seeded-change tooling) take one of
+    a few private (mirror, cargo target) slots, so that several of them can run side by side
+    without waiting for the mirror of /repo; the slot is held until the process exits."""
+    global _SLOT_LOCK
+    n = int(os.environ.get('VERIF_SCRATCH_SLOTS', '3'))
+    while True:
+        for i in range(n):
+            d = f'/var/tmp/verif-work-s{i}'
+            os.makedirs(d, exist_ok=True)
+            f = open(os.path.join(d, 'slot.lock'), 'w')
+            try:
+                fcntl.flock(f, fcntl.LOCK_EX | fcntl.LOCK_NB)
+            except OSError:
+                f.close()
+                continue
+            _SLOT_LOCK = f
+            return d, f'/var/tmp/kani-target-s{i}'
+        time.sleep(5)
+
+
+if REPO != '/repo' and not os.environ.get('VERIF_WORK'):
+    WORK, _slot_target = _scratch_slot()
+    os.environ.setdefault('VERIF_KANI_TARGET', _slot_target)
+else:
+    WORK = os.environ.get('VERIF_WORK', '/var/tmp/verif-work')
 MIRROR = os.path.join(WORK, 'mirror')
 TARGET = os.environ.get('VERIF_KANI_TARGET', os.path.join(VERIF, '.build', 'kani-target'))
 KANI_DIR = os.path.join(VERIF, 'contracts', 'kani')
